@@ -95,7 +95,9 @@ class Ctx:
             else:
                 unknown.append(v)
         for cls, v in seen_known.items():
-            print("KNOWN-FINDING: property=%s %s [%s] e.g. %s" % (prop, known_cls[cls]["text"], cls, v["text"][:200]))
+            kp = lib.write_replay(prop, "known-%s.json" % hashlib.sha1(cls.encode()).hexdigest()[:10],
+                                  {"property": prop, "class": cls, "known_finding": known_cls[cls]["text"], "what": v["text"], "input": v["replay"]})
+            print("KNOWN-FINDING: property=%s %s [%s] e.g. %s (replay=%s)" % (prop, known_cls[cls]["text"], cls, v["text"][:200], kp))
         broken_obl = [o for o in self.obligations if not o[1]]
         broken_corr = [c for c in self.corr if c["mismatches"]]
         rc = 0
@@ -148,6 +150,38 @@ class Ctx:
 
 
 REGISTRY = {}
+REPLAYERS = {}
+
+
+def replay(prop, path):
+    """./check Cxx --replay FILE: re-run the recorded input(s) on the current implementation and show what it does now.
+    Exit 1 if the property-specific re-evaluation still fails (or, generically, if the recorded case still produces the recorded output)."""
+    obj = json.load(open(path))
+    print("replay of %s: class=%s" % (path, obj.get("class")))
+    print("what: %s" % obj.get("what"))
+    if prop in REPLAYERS:
+        return REPLAYERS[prop](obj)
+    cases = []
+
+    def walk(x, name=""):
+        if isinstance(x, dict):
+            if "src" in x and isinstance(x["src"], str) and ("rules" in x or "media" in x):
+                cases.append((name, x))
+            else:
+                for k, v in x.items():
+                    walk(v, name + "/" + k)
+        elif isinstance(x, list):
+            for i, v in enumerate(x[:20]):
+                walk(v, name + "/%d" % i)
+    walk(obj.get("input"))
+    if not cases:
+        print("no re-runnable case recorded in this replay file (see its fields for the manual replay command)")
+        print(json.dumps(obj, indent=1, ensure_ascii=False)[:3000])
+        return 0
+    res = lib.run_vh("lint", [dict(c, rules=c.get("rules", "all"), media=c.get("media", "ts")) for _, c in cases])
+    for (name, c), r in zip(cases, res):
+        print("--- %s\n%s\n=> %s" % (name, json.dumps(c, ensure_ascii=False)[:1500], json.dumps(r, ensure_ascii=False)[:3000]))
+    return 1 if obj.get("class") else 0
 
 
 def register(pid):
